@@ -108,8 +108,20 @@ static ssize_t ck_write(void * c, const char * buf, size_t n) {
 	k->data.append(buf, n);
 	return (ssize_t)n;
 }
+// seeking is legal on a regular file (a change may start to use ftell/fseek to size a file before reading it); it never fails by itself
+static int ck_seek(void * c, off64_t * offset, int whence) {
+	Cookie * k = (Cookie *)c;
+	if (k->writing) return -1;
+	int64_t base = whence == SEEK_SET ? 0 : whence == SEEK_CUR ? (int64_t)k->pos : (int64_t)k->data.size();
+	int64_t np = base + (int64_t)*offset;
+	if (np < 0) { errno = EINVAL; return -1; }
+	k->pos = (size_t)np;
+	*offset = (off64_t)np;
+	return 0;
+}
 static int ck_close(void * c) {
 	Cookie * k = (Cookie *)c;
+	if (!k->writing) g_sim.open_read_streams--;
 	if (k->writing) {
 		SimFile & f = g_sim.files[k->path];
 		f.written = k->data;
@@ -199,7 +211,8 @@ FILE * simfs_fopen(const char * path, const char * mode) {
 	rec.ok = true;
 	g_sim.open_log.push_back(rec);
 	k->log_index = g_sim.open_log.size() - 1;
-	cookie_io_functions_t io = { ck_read, NULL, NULL, ck_close };
+	cookie_io_functions_t io = { ck_read, NULL, ck_seek, ck_close };
+	g_sim.open_read_streams++;
 	g_log.ev("fopen_r", norm + "#" + std::to_string(nth));
 	return fopencookie(k, "r", io);
 }
